@@ -352,8 +352,13 @@ func runFuzz(exp g9cl.Exports, c fuzzCase) (kind, verdict, detail string) {
 		}
 		return "ok", "ok", ""
 	}
-	r := g9cl.CompilePartial(exp, c.Files, g9cl.Options{SkipBodiless: !strings.HasPrefix(c.ID, "witness:")})
+	r := g9cl.CompilePartial(exp, c.Files, g9cl.Options{})
 	switch {
+	case r.ParserPanic != "":
+		return "parser-panic", "ok", r.ParserPanic // not parser-accepted input: outside C07 (reported in the evidence)
+	case r.WritePanic != "":
+		// NewPackage returned; gogen's WriteTo panicked: an invalid OUTPUT, accounted to C06
+		return "writeto-panic", "ok", r.WritePanic + " @ " + panicSite(r.Stack)
 	case r.Panic != "":
 		return "panic", "escaped-panic", r.Panic + " @ " + panicSite(r.Stack)
 	case r.NoPkg:
@@ -375,8 +380,6 @@ func runFuzz(exp g9cl.Exports, c fuzzCase) (kind, verdict, detail string) {
 	kind = "ok"
 	if r.ParseErr != "" {
 		kind = "parse+ok"
-	} else if r.Bodiless && r.Go == "" {
-		kind = "ok-bodiless-nowrite"
 	}
 	return
 }
